@@ -70,15 +70,15 @@ var multiObj = map[string]any{"b": []any{true}, "k": 1, "a": map[string]any{"y":
 // ---- scalar kinds --------------------------------------------------------------
 
 type kind struct {
-	name   string
-	pre    int    // pad bits in front (to place the field at a non byte aligned position)
-	nbits  int    // bits consumed by the field (0 for synthetic values)
-	data   []byte // the bits, left aligned
-	actual any    // expected actual as JSON (raw bits: set by rawWant)
-	isRaw  bool
-	badUTF bool // raw bits that are not valid UTF-8
+	name     string
+	pre      int    // pad bits in front (to place the field at a non byte aligned position)
+	nbits    int    // bits consumed by the field (0 for synthetic values)
+	data     []byte // the bits, left aligned
+	actual   any    // expected actual as JSON (raw bits: set by rawWant)
+	isRaw    bool
+	badUTF   bool // raw bits that are not valid UTF-8
 	multikey bool // value is an object with several keys
-	read   func(d *decode.D, name string, k *kind, v vnt)
+	read     func(d *decode.D, name string, k *kind, v vnt)
 }
 
 func um(v vnt) (m []scalar.UintMapper) {
@@ -173,7 +173,7 @@ func dc(v any) any {
 	return v
 }
 
-func be64(u uint64) []byte { b := make([]byte, 8); binary.BigEndian.PutUint64(b, u); return b }
+func be64(u uint64) []byte  { b := make([]byte, 8); binary.BigEndian.PutUint64(b, u); return b }
 func f64b(f float64) []byte { return be64(math.Float64bits(f)) }
 
 func uintKind(name string, pre, nbits int, data []byte, want uint64) *kind {
@@ -407,6 +407,7 @@ func (w *bitw) zeros(n int) {
 		w.b = append(w.b, false)
 	}
 }
+
 // skipped regions hold ASCII so that gap fields are valid UTF-8 (n is a multiple of 8)
 func skipBytes(nbits int) []byte {
 	b := make([]byte, nbits/8)
